@@ -225,6 +225,13 @@ impl Env {
                     _ => 0,
                 };
                 let mut args = json!({"p": pname(p), "start": start, "n": n, "tip": server.tip + 1, "kind": "honest"});
+                if kind == "hashes" {
+                    let maps = crate::verif::project::Maps::new(&sim.chain);
+                    if let packed::BlockFilterMessageUnion::BlockFilterHashes(c) = m.to_enum() {
+                        args["parent"] = json!(maps.fid(&c.parent_block_filter_hash()));
+                        args["hs"] = json!(c.block_filter_hashes().into_iter().map(|h| maps.fid(&h)).collect::<Vec<_>>());
+                    }
+                }
                 if kind == "cps" {
                     let maps = crate::verif::project::Maps::new(&sim.chain);
                     if let packed::BlockFilterMessageUnion::BlockFilterCheckPoints(c) = m.to_enum() {
@@ -475,6 +482,59 @@ impl Env {
             n += 1;
         }
         n
+    }
+
+    /// Mutants of the honest BlockFilterHashes answer to peer i's outstanding request (the request stays).
+    pub fn mutate_hashes(&mut self, sim: &mut Sim, i: usize, rng: &mut rand::rngs::StdRng) -> usize {
+        use rand::Rng;
+        let p = self.peers[i].idx;
+        let start = match sim.inbox.iter().find_map(|s| if s.peer == p { sim::filter_request(s).filter(|(k, _)| *k == "hashes").map(|(_, st)| st) } else { None }) {
+            Some(s) => s,
+            None => return 0,
+        };
+        let server = self.peers[i].server.clone();
+        let honest = match server.block_filter_hashes(&sim.chain, start) {
+            Some(m) => m,
+            None => return 0,
+        };
+        let c = match honest.to_enum() {
+            packed::BlockFilterMessageUnion::BlockFilterHashes(c) => c,
+            _ => return 0,
+        };
+        let hs: Vec<packed::Byte32> = c.block_filter_hashes().into_iter().collect();
+        let mut fake = [0u8; 32];
+        rng.fill(&mut fake);
+        let fake: packed::Byte32 = fake.pack();
+        let mut muts: Vec<(&'static str, u64, packed::Byte32, Vec<packed::Byte32>)> = Vec::new();
+        muts.push(("parent", start, fake.clone(), hs.clone()));
+        muts.push(("empty", start, c.parent_block_filter_hash(), vec![]));
+        muts.push(("start+1", start + 1, c.parent_block_filter_hash(), hs.clone()));
+        if start > 1 {
+            muts.push(("start-1", start - 1, c.parent_block_filter_hash(), hs.clone()));
+        }
+        if !hs.is_empty() {
+            let k = rng.gen_range(0..hs.len());
+            let mut v = hs.clone();
+            v[k] = fake.clone();
+            muts.push(("hash", start, c.parent_block_filter_hash(), v));
+            let mut v = hs.clone();
+            let last = v.len() - 1;
+            v[last] = fake.clone();
+            muts.push(("last-hash", start, c.parent_block_filter_hash(), v));
+            let mut v = hs.clone();
+            v.push(fake.clone());
+            muts.push(("extended", start, c.parent_block_filter_hash(), v));
+            muts.push(("truncated", start, c.parent_block_filter_hash(), hs[..hs.len() / 2].to_vec()));
+        }
+        let pick = rng.gen_range(0..muts.len());
+        let (label, st, parent, v) = muts.swap_remove(pick);
+        let maps = crate::verif::project::Maps::new(&sim.chain);
+        let content = packed::BlockFilterHashes::new_builder().start_number(st.pack()).parent_block_filter_hash(parent.clone()).block_filter_hashes(v.clone().pack()).build();
+        let m = packed::BlockFilterMessage::new_builder().set(content).build();
+        let args = json!({"p": pname(p), "start": st, "n": v.len(), "tip": server.tip + 1, "kind": format!("mut:{}", label),
+            "parent": maps.fid(&parent), "hs": v.iter().map(|h| maps.fid(h)).collect::<Vec<_>>()});
+        sim.step("FilterHashes", args, |c| c.deliver(Proto::Filter, p, m.as_bytes()));
+        1
     }
 
     /// An unsolicited honest BlockFilters batch starting right after the filtered number.
